@@ -22,7 +22,7 @@ CAT = [
     ('m_c05_zero_size_loop', 'C05', 'quick', 'txdbus/marshal.py',
      "        if nbytes == 0:\n", "        if nbytes < 0:\n",
      'zero-size array elements loop again'),
-    ('m_c05_dropped_client_kept', 'C05,C14', 'quick', 'txdbus/bus.py',
+    ('m_c05_dropped_client_kept', 'C05', 'quick', 'txdbus/bus.py',
      "        if proto.uniqueName:\n            del self.clients[proto.uniqueName]\n",
      "        if proto.uniqueName and proto.busNames:\n            del self.clients[proto.uniqueName]\n",
      'a lost connection that owns no name stays in the client table'),
@@ -133,10 +133,14 @@ CAT = [
     ('m_c17_write_only_readable', 'C17', 'quick', 'txdbus/objects.py',
      "        if p.iprop.access == 'write':\n            raise Exception('Property is not readable')\n", "",
      'Get reveals write-only properties'),
-    ('m_c17_getall_other_iface', 'C17', 'quick', 'txdbus/objects.py',
-     "                if ifc:\n                    for p in ifc.properties.values():\n                        addp(p)\n                    break",
-     "                if ifc:\n                    for p in ifc.properties.values():\n                        addp(p)",
-     'GetAll keeps collecting the named interface from base classes'),
+    ('m_c17_set_read_only', 'C17', 'quick', 'txdbus/objects.py',
+     "        if p.iprop.access not in ('write', 'readwrite'):\n            raise Exception('Property is not Writeable')\n",
+     "",
+     'Set succeeds on read-only properties'),
+    ('m_c17_getall_first_class_only', 'C17', 'quick', 'txdbus/objects.py',
+     "                if ifc:\n                    for p in ifc.properties.values():\n                        addp(p)\n",
+     "                if ifc:\n                    for p in ifc.properties.values():\n                        addp(p)\n                    break\n",
+     'GetAll stops at the first class that mentions the interface (the original defect)'),
     ('m_c17_emit_false', 'C17', 'quick', 'txdbus/objects.py',
      "        if self.iprop.emits == 'true':", "        if self.iprop.emits != 'false':",
      "properties declared 'invalidates' emit PropertiesChanged with the value"),
@@ -148,10 +152,6 @@ CAT = [
      "            and interfaces.IUNIXTransport.providedBy(protocol.transport)",
      "            and hasattr(protocol.transport, 'sendFileDescriptor')",
      'descriptor passing is negotiated on every transport that happens to have the method'),
-    ('m_c04_header_needs_17', 'C04', 'quick', 'txdbus/protocol.py',
-     "                if self._nextMsgLen == 0 and buffer_len >= 16:",
-     "                if self._nextMsgLen == 0 and buffer_len > 16:",
-     'the frame length is only computed once 17 bytes are buffered (16-byte messages stall)'),
     ('m_c20_fd_after_write', 'C20', 'quick', 'txdbus/protocol.py',
      "        if hasattr(msg, 'oobFDs') and msg.oobFDs:\n            for fd in msg.oobFDs:\n                self.transport.sendFileDescriptor(fd)\n        self.transport.write(msg.rawMessage)",
      "        self.transport.write(msg.rawMessage)\n        if hasattr(msg, 'oobFDs') and msg.oobFDs:\n            for fd in msg.oobFDs:\n                self.transport.sendFileDescriptor(fd)",
